@@ -71,7 +71,10 @@ def gen_atom(rng, malformed=None):
     f['resName'] = rng.choice(['ALA', 'GLY', ' DA', 'A  ', '  U', 'HOH', 'MSE', 'TRP'])
     f['chainID'] = rng.choice(['A', 'B', 'C', 'a', '1', ' '])
     f['resSeq'] = num_field(rng, 4, 0, -999, 9999, ('typ', 'typ', 'wide', 'narrow', 'left'))
-    f['iCode'] = rng.choice([' ', ' ', 'A', 'C'])
+    # one-column text fields also take DIGITS (legal: insertion code '1', altLoc '2', chain '7'): a digit next to a full-width
+    # number is where a reader that decides field boundaries from the characters, not from the columns, goes wrong
+    # (round-6 seed C01-r6m1: `line[22:27].isdigit()` -> a five-column resSeq when the insertion code is a digit)
+    f['iCode'] = rng.choice([' ', ' ', 'A', 'C', '1', '0', '9'])
     for c in 'xyz':
         f[c] = num_field(rng, 8, 3, -999.999, 9999.999, ('typ', 'typ', 'typ', 'wide', 'narrow', 'int', 'dot', 'left', 'fewer', 'exp'))
     f['occ'] = rng.choice([num_field(rng, 6, 2, -99.99, 999.99, ('typ', 'wide', 'narrow', 'int')), '      ', '  1.00'])
@@ -152,6 +155,17 @@ def cases(ctx):
         m = rng.choice(['long', 'nochain', 'serial', 'resSeq', 'x', 'y', 'z', 'occ', 'temp', 'blankxyz'])
         recs = gen_text(rng, rng.choice([1, 5, 6]), malformed=m)
         out.append(make_case(recs, rng.choice(FORMS), rng.random() < 0.5, 'malformed:' + m))
+    # adjacent fields both full and both of the same character class: 5-digit serial next to a name starting with a digit,
+    # digit altLoc after a 4-character name, digit chain before a 4-digit (or minus + 3-digit) resSeq followed by a digit iCode
+    for k in range(ctx.scale(24, 200)):
+        f = {'serial': str(rng.randint(10000, 99999)), 'name': rng.choice(['1HB ', '2HG1', 'HD21', '1HD2']),
+             'altLoc': rng.choice(['1', '2', 'A']), 'resName': rng.choice(['ALA', 'TRP', ' DA']), 'chainID': rng.choice(['1', '7', 'A']),
+             'resSeq': rng.choice([str(rng.randint(1000, 9999)), str(rng.randint(-999, -100)), '9999', '1000']),
+             'iCode': rng.choice(['1', '0', '9', '5']),
+             'x': rng.choice(['9999.999', '-999.999', '1234.567']), 'y': rng.choice(['9999.999', '-999.999', '7654.321']),
+             'z': rng.choice(['9999.999', '-999.999', '   0.000']), 'occ': rng.choice(['999.99', '  1.00']), 'temp': rng.choice(['999.99', ' 25.30']),
+             'segID': rng.choice(['    ', 'SEGA']), 'element': rng.choice([' H', '  ']), 'charge': '  '}
+        out.append(make_case([fmt_line(f)], FORMS[k % len(FORMS)], k % 2 == 0, 'adjacent-full-fields'))
     # per-column probes (list form: the cheapest)
     for col in range(7, 81):
         out.append(make_case([column_probe(col)], 'listStr', False, 'column-probe'))
